@@ -8,11 +8,13 @@ use std::cell::RefCell;
 pub const S1: char = '\u{e000}';
 pub const S2: char = '\u{e001}';
 
-/// The six bundled languages, "none" (`Lang::new()`), and "xk": a user-defined language built through
-/// the public `Lang` API (kana + Hebrew compositions with script-specific combining marks, an
-/// expanding ligature, two function words) - "for all languages" includes the ones a user defines.
-pub const LANGS: [&str; 8] = ["none", "de", "en", "es", "fr", "pt", "ru", "xk"];
-pub const NL: u64 = 8;
+/// The six bundled languages, "none" (`Lang::new()`), and three user-defined languages built through the
+/// public `Lang` API - "for all languages" includes the ones a user defines: "xk" (kana + Hebrew
+/// compositions with script-specific combining marks, singleton compositions, an expanding ligature, two
+/// function words, character classes), "xc" (compositions ONLY: no reduction, no function word - composed
+/// letters stay accented) and "xr" (reductions ONLY: nothing is composed, a free-standing mark stays a mark).
+pub const LANGS: [&str; 10] = ["none", "de", "en", "es", "fr", "pt", "ru", "xk", "xc", "xr"];
+pub const NL: u64 = 10;
 
 #[derive(Clone)]
 pub struct Rng(pub u64);
@@ -86,6 +88,8 @@ pub fn mk_lang(name: &str) -> Lang {
         "pt" => lang_portuguese(),
         "ru" => lang_russian(),
         "xk" => lang_custom(),
+        "xc" => lang_compose_only(),
+        "xr" => lang_reduce_only(),
         _ => Lang::new(),
     }
 }
@@ -103,6 +107,35 @@ pub const XK_COMPOSE: [(&str, &str); 8] = [
     ("\u{1f71}", "\u{3ac}"),
 ];
 pub const XK_REDUCE: [(&str, &str); 7] = [("が", "か"), ("ぎ", "き"), ("ば", "は"), ("ぱ", "は"), ("ヴ", "ウ"), ("\u{fb2a}", "ש"), ("ゟ", "より")];
+
+pub const XC_COMPOSE: [(&str, &str); 9] = [
+    ("a\u{308}", "ä"),
+    ("o\u{308}", "ö"),
+    ("u\u{308}", "ü"),
+    ("A\u{308}", "Ä"),
+    ("O\u{308}", "Ö"),
+    ("U\u{308}", "Ü"),
+    ("e\u{301}", "é"),
+    ("E\u{301}", "É"),
+    ("\u{212b}", "\u{c5}"),
+];
+pub const XR_REDUCE: [(&str, &str); 6] = [("ß", "ss"), ("ẞ", "SS"), ("é", "e"), ("É", "E"), ("ø", "oe"), ("Ø", "OE")];
+
+fn lang_compose_only() -> Lang {
+    let mut lang = Lang::new();
+    for (from, to) in XC_COMPOSE.iter() {
+        lang.add_unicode_composition(from, to);
+    }
+    lang
+}
+
+fn lang_reduce_only() -> Lang {
+    let mut lang = Lang::new();
+    for (from, to) in XR_REDUCE.iter() {
+        lang.add_unicode_reduction(from, to);
+    }
+    lang
+}
 
 fn lang_custom() -> Lang {
     use lucid_suggest_core::lang::{CharClass, PartOfSpeech};
